@@ -288,6 +288,10 @@ func (c *Checker) finish(evidPath string) int {
 		"wall_s":      time.Since(c.start).Seconds(),
 		"violations":  len(bad),
 	}
+	if dump := os.Getenv("VERIF_DUMP_OBS"); dump != "" {
+		b, _ := json.MarshalIndent(c.obs, "", " ")
+		os.WriteFile(dump, b, 0o644)
+	}
 	if evidPath != "" {
 		b, _ := json.MarshalIndent(ev, "", " ")
 		os.MkdirAll(filepath.Dir(evidPath), 0o755)
